@@ -363,7 +363,8 @@ def evaluate(expr: str, pv: str, proxy, ctx):
     """value list | ('err', code) | ('escaped', cls); through a cached token and a copy of the context"""
     tok = get_token(expr, pv, proxy)
     if isinstance(tok, Exception):
-        return err_class(tok)
+        c = err_class(tok)
+        return ('static', c[1]) if c[0] == 'err' else c     # raised by parse(): the schema-aware static analysis
     try:
         r = tok.get_results(copy(ctx))
     except RecursionError:
@@ -375,6 +376,9 @@ def evaluate(expr: str, pv: str, proxy, ctx):
 
 def select_api(root, expr: str, pv: str, proxy):
     import elementpath
+    tok = get_token(expr, pv, proxy)
+    if isinstance(tok, Exception) and err_class(tok)[0] == 'err':
+        return ('static', err_class(tok)[1])
     try:
         r = elementpath.select(root, expr, namespaces=NS, parser=parsers()[pv], schema=proxy)
     except RecursionError:
@@ -435,7 +439,7 @@ def same_value(exp, v) -> bool:
 
 def cmp_values(exp_seq, obs, classes) -> str | None:
     """expected typed value (sequence of abstract atoms) vs observed list -> None | outcome class"""
-    if isinstance(obs, tuple) and obs and obs[0] in ('err', 'escaped'):
+    if isinstance(obs, tuple) and obs and obs[0] in ('err', 'escaped', 'static'):
         return f'{obs[0]}:{obs[1]}'
     if len(obs) != len(exp_seq):
         return f'length:{len(obs)}'
@@ -450,7 +454,7 @@ def cmp_values(exp_seq, obs, classes) -> str | None:
 def probe_outcome(want, obs, classes) -> str | None:
     """expected probe result of the spec ([k |-> err | empty | val, v]) vs observed -> None | outcome class"""
     if want['k'] == 'err':
-        return None if (isinstance(obs, tuple) and obs[0] == 'err') else \
+        return None if (isinstance(obs, tuple) and obs[0] in ('err', 'static')) else \
             (f'{obs[0]}:{obs[1]}' if isinstance(obs, tuple) else 'value_instead_of_error')
     if want['k'] == 'empty':
         return None if obs == [] else (f'{obs[0]}:{obs[1]}' if isinstance(obs, tuple) else 'value_instead_of_empty')
